@@ -94,6 +94,11 @@ Definition time_allows (es : list tf_entry) (day hour : N) : bool :=
 Definition strip_zone (h : str) : str :=
   match cut_byte 37 h with Some (x, _) => x | None => h end.
 
+(* "evil.test." -> "evil.test": the trailing dot of a fully qualified name (strings.TrimSuffix(h, ".")).
+   The resolver and TLS treat both spellings as the same name. *)
+Definition strip_dot (h : str) : str :=
+  match rev h with 46 :: r => rev r | _ => h end.
+
 (* a finite table read as a function that is the identity elsewhere: used for the IDNA
    mapping oracle (golang.org/x/net/idna Lookup.ToASCII on non-ASCII names; the harness
    records its answers on the host names of the run) *)
@@ -106,12 +111,23 @@ Definition table_fun (t : list (str * str)) (h : str) : str :=
    localhost_strips_zone: a zone is cut off before net.ParseIP
    localhost_checks_unspecified : IsUnspecified counts like IsLoopback *)
 Definition is_localhost (idna : str -> str) (aliases : list str) (host : str) : bool :=
-  let h := lower (if localhost_maps_idna then idna host else host) in
+  let h0 := lower (if localhost_maps_idna then idna host else host) in
+  let h := if localhost_strips_dot then strip_dot h0 else h0 in
   existsb (str_eqb h) (localhost_seed ++ aliases) ||
   match parse_ip (if localhost_strips_zone then strip_zone h else h) with
   | Some ip => ip_loopback ip || (localhost_checks_unspecified && ip_unspecified ip)
   | None => false
   end.
+
+(* the spellings of the request's host under which deny-domains judges it: as written; as the
+   transport connects to it (IDNA) when the source does so; each without the trailing dot when the
+   source does so *)
+Definition deny_forms_checked (idna : str -> str) (hn : str) : list str :=
+  hn :: (if deny_matches_ascii_form then [idna hn] else [])
+     ++ (if deny_matches_undotted_form then [strip_dot hn; strip_dot (idna hn)] else []).
+(* ... and under which it has to (statement level) *)
+Definition deny_forms (idna : str -> str) (hn : str) : list str :=
+  [hn; idna hn; strip_dot hn; strip_dot (idna hn)].
 
 (* ---------------------------------------------------------------- configuration *)
 Record config := {
@@ -185,8 +201,7 @@ Definition passes (cfg : config) (e : env) (host : str) (h : hmap) (c : control)
              end
   | CLocal => negb (is_localhost (c_idna cfg) (c_aliases cfg) (url_hostname host))
   | CDeny => match c_deny cfg with
-             | Some m => negb (m (url_hostname host) ||
-                               (deny_matches_ascii_form && m (c_idna cfg (url_hostname host))))
+             | Some m => negb (existsb m (deny_forms_checked (c_idna cfg) (url_hostname host)))
              | None => true
              end
   | CStack => true
@@ -373,7 +388,7 @@ Fixpoint conn_run (cfg : config) (e : env) (inside : bool) (qs : list (req * ups
    AND unspecified literals of either family — judged on the name the transport connects
    to (IDNA-mapped), a zone not changing which host a literal denotes *)
 Definition target_is_local (idna : str -> str) (aliases : list str) (host : str) : bool :=
-  let h := lower (idna host) in
+  let h := strip_dot (lower (idna host)) in
   existsb (str_eqb h) (localhost_seed ++ aliases) ||
   match parse_ip (strip_zone h) with
   | Some ip => ip_loopback ip || ip_unspecified ip
@@ -399,7 +414,7 @@ Definition must_fail (cfg : config) (e : env) (q : req) (c : control) : bool :=
              end
   | CLocal => target_is_local (c_idna cfg) (c_aliases cfg) (url_hostname (r_host q))
   | CDeny => match c_deny cfg with
-             | Some m => m (url_hostname (r_host q)) || m (c_idna cfg (url_hostname (r_host q)))
+             | Some m => existsb m (deny_forms (c_idna cfg) (url_hostname (r_host q)))
              | None => false
              end
   | CStack => false
